@@ -11,6 +11,7 @@ import (
 
 	gojson "github.com/goccy/go-json"
 
+	"verif/harness/gen"
 	"verif/harness/oracle"
 	"verif/harness/rt"
 )
@@ -71,7 +72,7 @@ func genPath(r *rand.Rand, maxSteps int) (string, []pstep) {
 
 func genPathDoc(r *rand.Rand, depth int) string {
 	if depth <= 0 || r.Intn(4) == 0 {
-		return []string{"1", `"s"`, "null", "true", "2.5", `"x y"`, "[]", "{}"}[r.Intn(8)]
+		return []string{"1", `"s"`, "null", "true", "2.5", `"x y"`, "[]", "{}", "[ ]", "{ }", "[\n]", " 3 "}[r.Intn(12)]
 	}
 	if r.Intn(3) == 0 {
 		n := r.Intn(4)
@@ -346,8 +347,23 @@ func init() {
 			}
 			// generated paths x generated documents; reuse after errors; concurrent sharing
 			r := c.RNG(0)
-			for k := 0; k < 10; k++ {
+			// two paths per batch come from a fixed list of array-only paths (they get array documents
+			// with empty arrays spelled with and without interior whitespace)
+			arrayPaths := []struct {
+				ps    string
+				steps []pstep
+			}{
+				{"$[*]", []pstep{{kind: 'a'}}}, {"$[1]", []pstep{{kind: 'i', idx: 1}}}, {"$[*][0]", []pstep{{kind: 'a'}, {kind: 'i', idx: 0}}},
+				{"$[*][*]", []pstep{{kind: 'a'}, {kind: 'a'}}}, {"$[1][*]", []pstep{{kind: 'i', idx: 1}, {kind: 'a'}}}, {"$[2][1][*]", []pstep{{kind: 'i', idx: 2}, {kind: 'i', idx: 1}, {kind: 'a'}}},
+				{"$[*][*][*]", []pstep{{kind: 'a'}, {kind: 'a'}, {kind: 'a'}}}, {"$[0][0]", []pstep{{kind: 'i', idx: 0}, {kind: 'i', idx: 0}}},
+			}
+			for k := 0; k < 12; k++ {
 				ps, steps := genPath(r, 4)
+				arrayOnly := false
+				if k >= 10 {
+					ap := arrayPaths[(c.Idx*2+k)%len(arrayPaths)]
+					ps, steps, arrayOnly = ap.ps, ap.steps, true
+				}
 				if !c.Cur(k, "shapes=core\npath: "+ps) {
 					continue
 				}
@@ -364,6 +380,14 @@ func init() {
 				}
 				// a document tailored to the path so that deep selections happen
 				docs = append(docs, tailoredDoc(r, steps, 0), tailoredDoc(r, steps, 1))
+				// the same texts with whitespace at every position the grammar allows (inside empty
+				// containers too), and the tailored ones with empty containers among the elements
+				docs = append(docs, string(gen.MutateDoc(r, []byte(docs[10]), "whitespace")), string(gen.MutateDoc(r, []byte(docs[11]), "whitespace")),
+					string(gen.MutateDoc(r, []byte(docs[0]), "whitespace")), string(gen.MutateDoc(r, []byte(docs[1]), "whitespace")),
+					strings.NewReplacer(`"pad"`, "[ ]", `"zz":0`, `"zz":{ }`, ",7]", ",[\n],{\t}]").Replace(docs[11]))
+				if arrayOnly {
+					docs = append(docs, `[[1],[ ],[2,[\n],[ 3 ]]]`, `[ ]`, `[[ ]]`, `[[],[ ]]`, `[[[]],[[ ]],[[\t],[4]]]`, ` [ [ 1 , 2 ] , [ ] , [ [ ] , [ 5 ] ] ] `, `[[1,2],[],[[],[5]]]`)
+				}
 				fresh := map[string]string{}
 				for di, d := range docs {
 					tree, perr := oracle.Parse([]byte(d))
